@@ -100,3 +100,12 @@ CHECKS["C17"] = (
     "DESIGN.md#c17",
 )
 NA.pop("C17", None)
+
+CHECKS["C15"] = (
+    "other",
+    "static analysis: table agreement between each primitive's defaults, its constructor forwarding and the parameters its _create_mesh reads (effect analysis through PrimitiveAttributes into the shared DataStore); footprints of analytic overrides; sign rule on the scale factor; memoisation-leak rule",
+    "Decides the clause 'a primitive's mesh always reflects its current parameters' for every parameter edit sequence: parameters live in the hashed store, every one is forwarded by the constructor and read by the lazy mesh builder, the lazy getters use the verifying memo API and cannot be assigned, analytic overrides read parameters only, apply_transform writes parameters only with a factor that cannot be negative, and no module-level memoised helper hands the same array to several meshes. Watertightness, winding and analytic measures of the creation functions are not decided.",
+    "Trusted: E1 effect model; the reading of PrimitiveAttributes.__getattr__/__setattr__; known finding: Capsule ignores `sections`.",
+    "DESIGN.md#c15",
+)
+NA.pop("C15", None)
